@@ -25,7 +25,8 @@ func TestProp(t *testing.T) {
 		"the in-process owning subgraph of the fed rig answers deterministically")
 	r.RequireLabel("rig:plain", "rig:fed", "seen:unit:resolver", "seen:unit:requires", "seen:unit:entity-field", "seen:abstract-object", "seen:nested-list",
 		"reform:alias", "reform:aliasdup", "reform:reorder", "reform:dup", "reform:inline-fragment", "reform:named-fragment", "reform:subset", "consistency:compared",
-		"seen:service-fact:argument-echo", "seen:service-fact:entity-name-of-key", "seen:service-fact:id-names-the-type")
+		"seen:service-fact:argument-echo", "seen:service-fact:entity-name-of-key", "seen:service-fact:id-names-the-type",
+		"seq:same-operation-other-variables", "seq:interleaved-operations", "seq:call-skipped-after-issued:nested-resolvers")
 	for _, name := range []string{"plain", "fed"} {
 		st, err := unitStates(name)
 		if err != nil {
@@ -39,6 +40,7 @@ func TestProp(t *testing.T) {
 	r.RunProbes(probes())
 	unitsPart.Run(r)
 	opsPart.Run(r)
+	seqPart.Run(r)
 	if os.Getenv("C20_DEBUG") != "" {
 		var m runtime.MemStats
 		runtime.ReadMemStats(&m)
@@ -49,5 +51,5 @@ func TestProp(t *testing.T) {
 func TestReplay(t *testing.T) { pbt.StdReplay(t, "C20", dispatch()) }
 
 func dispatch() pbt.Dispatch {
-	return pbt.Dispatch{}.Add(opsPart.Name, opsPart.Handler()).Add(unitsPart.Name, unitsPart.Handler()).WithProbes(probes())
+	return pbt.Dispatch{}.Add(opsPart.Name, opsPart.Handler()).Add(unitsPart.Name, unitsPart.Handler()).Add(seqPart.Name, seqPart.Handler()).WithProbes(probes())
 }
